@@ -13,7 +13,7 @@ structure InvE (s : St) : Prop where
   errLate : ∀ v pc, (v, pc) ∈ s.workers → ErrPc pc → Ev.finish v true ∈ s.log
   errExitsFin : ∀ v ∈ s.errExits, Ev.finish v true ∈ s.log
   firstErrLast : s.firstErr = s.errExits.getLast?
-  cancelledIff : s.cancelled = !s.errExits.isEmpty
+  cancelledIff : s.cancelled = (s.extCancelled || !s.errExits.isEmpty)
   errAccounted : ∀ v, Ev.finish v true ∈ s.log → (∃ pc, (v, pc) ∈ s.workers ∧ ErrPc pc) ∨ v ∈ s.errExits
 
 theorem init_invE (g : Graph) : InvE (init g) := by
@@ -24,14 +24,17 @@ theorem init_invE (g : Graph) : InvE (init g) := by
 
 /-- error bookkeeping changes only when a worker whose visitor failed returns to the errgroup -/
 theorem step_errs {g : Graph} {lim : Option Nat} {s s' : St} {l : Label} (h : Step g lim s l s') :
-    (s'.errExits = s.errExits ∧ s'.firstErr = s.firstErr ∧ s'.cancelled = s.cancelled) ∨
+    (s'.errExits = s.errExits ∧ s'.firstErr = s.firstErr ∧ s'.cancelled = s.cancelled ∧ s'.extCancelled = s.extCancelled) ∨
     (∃ v, l = .wExit v ∧ (v, WPc.sent true) ∈ s.workers ∧ s'.errExits = v :: s.errExits ∧
-      s'.firstErr = (match s.firstErr with | some x => some x | none => some v) ∧ s'.cancelled = true) := by
+      s'.firstErr = (match s.firstErr with | some x => some x | none => some v) ∧ s'.cancelled = true ∧
+      s'.extCancelled = s.extCancelled) ∨
+    (l = .extCancel ∧ s'.errExits = s.errExits ∧ s'.firstErr = s.firstErr ∧ s'.cancelled = true ∧ s'.extCancelled = true) := by
   cases h with
   | @wExit v e hw =>
     cases e with
     | false => left; simp
-    | true => right; exact ⟨v, rfl, mem_of_wpc hw, by simp, rfl, by simp⟩
+    | true => right; left; exact ⟨v, rfl, mem_of_wpc hw, by simp, rfl, by simp, rfl⟩
+  | extCancel _ => right; right; exact ⟨rfl, rfl, rfl, rfl, rfl⟩
   | _ => left; simp
 
 theorem getLast?_cons_of_ne_nil {α} (a : α) {l : List α} (h : l ≠ []) : (a :: l).getLast? = l.getLast? := by
@@ -91,7 +94,7 @@ theorem invE_step {g : Graph} {lim : Option Nat} {s s' : St} {l : Label}
     rcases hlog with e | ⟨v, _, _, _, e⟩ | ⟨v, b, _, _, e⟩ <;> rw [e] <;> simp [hx]
   have hexits_sub : ∀ x, x ∈ s.errExits → x ∈ s'.errExits := by
     intro x hx
-    rcases herr with ⟨e, _, _⟩ | ⟨v, _, _, e, _, _⟩ <;> rw [e] <;> simp [hx]
+    rcases herr with ⟨e, _, _, _⟩ | ⟨v, _, _, e, _, _, _⟩ | ⟨_, e, _, _, _⟩ <;> rw [e] <;> simp [hx]
   refine ⟨?_, ?_, ?_, ?_, ?_⟩
   · -- errLate
     intro u pc hu he
@@ -119,14 +122,17 @@ theorem invE_step {g : Graph} {lim : Option Nat} {s s' : St} {l : Label}
         exact hmem_sub _ (hE.errLate u _ hw (.inr (.inl rfl)))
   · -- errExitsFin
     intro u hu
-    rcases herr with ⟨e, _, _⟩ | ⟨v, _, hw, e, _, _⟩
+    rcases herr with ⟨e, _, _, _⟩ | ⟨v, _, hw, e, _, _, _⟩ | ⟨_, e, _, _, _⟩
     · rw [e] at hu; exact hmem_sub _ (hE.errExitsFin u hu)
     · rw [e, List.mem_cons] at hu
       rcases hu with rfl | hu
       · exact hmem_sub _ (hE.errLate _ _ hw (.inr (.inr rfl)))
       · exact hmem_sub _ (hE.errExitsFin u hu)
+    · rw [e] at hu; exact hmem_sub _ (hE.errExitsFin u hu)
   · -- firstErrLast
-    rcases herr with ⟨e1, e2, _⟩ | ⟨v, _, _, e1, e2, _⟩
+    rcases herr with ⟨e1, e2, _, _⟩ | ⟨v, _, _, e1, e2, _, _⟩ | ⟨_, e1, e2, _, _⟩
+    · rw [e1, e2]; exact hE.firstErrLast
+    rotate_left
     · rw [e1, e2]; exact hE.firstErrLast
     · rw [e1, e2, hE.firstErrLast]
       cases hx : s.errExits with
@@ -137,9 +143,10 @@ theorem invE_step {g : Graph} {lim : Option Nat} {s s' : St} {l : Label}
         | some x => rfl
         | none => simp at hl
   · -- cancelledIff
-    rcases herr with ⟨e1, _, e3⟩ | ⟨v, _, _, e1, _, e3⟩
-    · rw [e1, e3]; exact hE.cancelledIff
-    · rw [e1, e3]; simp
+    rcases herr with ⟨e1, _, e3, e4⟩ | ⟨v, _, _, e1, _, e3, e4⟩ | ⟨_, e1, _, e3, e4⟩
+    · rw [e1, e3, e4]; exact hE.cancelledIff
+    · rw [e1, e3, e4]; simp
+    · rw [e1, e3, e4]; simp
   · -- errAccounted
     intro u hu
     have old : Ev.finish u true ∈ s.log → (∃ pc, (u, pc) ∈ s'.workers ∧ ErrPc pc) ∨ u ∈ s'.errExits := by
@@ -148,7 +155,7 @@ theorem invE_step {g : Graph} {lim : Option Nat} {s s' : St} {l : Label}
       · rcases step_err_keep h hA u pc hpc he with h1 | ⟨hl, hw⟩
         · exact .inl h1
         · right
-          rcases herr with ⟨e, _, _⟩ | ⟨v, hl2, _, e, _, _⟩
+          rcases herr with ⟨e, _, _, _⟩ | ⟨v, hl2, _, e, _, _, _⟩ | ⟨hl2, _, _, _, _⟩
           · subst hl
             cases h with
             | @wExit _ b hw2 =>
@@ -156,6 +163,7 @@ theorem invE_step {g : Graph} {lim : Option Nat} {s s' : St} {l : Label}
               cases this
               simp
           · rw [hl] at hl2; cases hl2; rw [e]; simp
+          · rw [hl] at hl2; cases hl2
       · exact .inr (hexits_sub u hx)
     rcases hlog with e | ⟨v, _, _, _, e⟩ | ⟨v, b, hl, hw, e⟩
     · rw [e] at hu; exact old hu
